@@ -377,6 +377,8 @@ class Inliner(object):
                             table[a.id] = closures[a.id]
         if not table and not methods:
             return
+        if self._expand_table_dispatch(mname, fd, table):
+            self.log.append('{}:{}: dispatch through a module-level table of new helpers rewritten as an if-chain'.format(mname, qual))
         for _ in range(MAX_DEPTH):
             changed = self._block_owner(fd, table, methods, '{}:{}'.format(mname, qual))
             if not changed:
@@ -605,6 +607,53 @@ class Inliner(object):
             holder.value = tmp
         pre = _as_statements(body, ast.Name(id=tmp.id, ctx=ast.Store()), False)
         return done(pre + [st])
+
+    def _expand_table_dispatch(self, mname, fd, table):
+        """`h = TABLE.get(key)` / `if h is not None: ... h(args) ...` with TABLE a module-level dict literal whose values are new helper
+        functions  ->  `if key == K1: ... helper1(args) ... elif key == K2: ...` (what the code did before the table was introduced), so
+        that the helpers can be inlined like any other"""
+        mod = self.port.modules[mname]
+        tables = {}
+        for st in mod.body:
+            if isinstance(st, ast.Assign) and len(st.targets) == 1 and isinstance(st.targets[0], ast.Name) and isinstance(st.value, ast.Dict) and st.value.keys \
+                    and all(isinstance(v, ast.Name) and v.id in table for v in st.value.values) and all(isinstance(k, (ast.Name, ast.Constant)) for k in st.value.keys):
+                tables[st.targets[0].id] = st.value
+        if not tables:
+            return False
+        changed = False
+        for owner in list(ast.walk(fd)):
+            for fld in ('body', 'orelse', 'finalbody'):
+                blk = getattr(owner, fld, None)
+                if not (isinstance(blk, list) and len(blk) >= 2):
+                    continue
+                for i in range(len(blk) - 1):
+                    a, b = blk[i], blk[i + 1]
+                    if not (isinstance(a, ast.Assign) and len(a.targets) == 1 and isinstance(a.targets[0], ast.Name) and isinstance(a.value, ast.Call) and isinstance(a.value.func, ast.Attribute)
+                            and a.value.func.attr == 'get' and isinstance(a.value.func.value, ast.Name) and a.value.func.value.id in tables and len(a.value.args) == 1 and not a.value.keywords):
+                        continue
+                    h = a.targets[0].id
+                    if not (isinstance(b, ast.If) and not b.orelse and isinstance(b.test, ast.Compare) and len(b.test.ops) == 1 and isinstance(b.test.ops[0], ast.IsNot)
+                            and isinstance(b.test.left, ast.Name) and b.test.left.id == h and isinstance(b.test.comparators[0], ast.Constant) and b.test.comparators[0].value is None):
+                        continue
+                    # the handler variable is used nowhere else
+                    uses = [x for x in ast.walk(fd) if isinstance(x, ast.Name) and x.id == h]
+                    inside = [x for x in ast.walk(b) if isinstance(x, ast.Name) and x.id == h]
+                    if len(uses) != len(inside) + 1:
+                        continue
+                    key = a.value.args[0]
+                    tbl = tables[a.value.func.value.id]
+                    chain = None
+                    for k_, v_ in reversed(list(zip(tbl.keys, tbl.values))):
+                        body = [_subst(s_, {h: ast.Name(id=v_.id, ctx=ast.Load())}) for s_ in b.body]
+                        test = ast.Compare(left=_subst(key, {}), ops=[ast.Eq()], comparators=[_subst(k_, {})])
+                        chain = ast.If(test=test, body=_flat(body), orelse=[chain] if chain is not None else [])
+                    if chain is None:
+                        continue
+                    self._loc(chain, b)
+                    blk[i:i + 2] = [chain]
+                    changed = True
+                    break
+        return changed
 
     def _fuse_generator(self, st, table, methods, where):
         """`for T in G(args): BODY` with G a new generator helper of the form `pre; for x in it: stmts; yield v`, or
